@@ -232,7 +232,8 @@ def run(ctx):
         'block with each of 13 service behaviours (200, no groups key, empty groups, 404 user, 404 groups, unreachable, groups unreachable, bad JSON, 500/204 user, 403/500 groups) or no/'
         'non-string url; two blocks over the product of behaviours; every ordered arrangement of 7 block states over two blocks '
         '(and over three: all in thorough, those ending in a non-consulted block + a spread in quick); mixed} x one connection '
-        '[valid Create, malformed frame, valid Get] against the real session with a real engine (thorough: every certificate x every configuration of <= 2 blocks, 6 decisive certificates x all three-block arrangements; quick: '
+        '[valid Create, malformed frame, valid Get] against the real session with a real engine (thorough: plain certificates x every configuration of <= 2 blocks, subject encodings x single blocks and all two-block '
+        'arrangements, 6 decisive certificates x all three-block arrangements; quick: '
         'plain shapes x basic configurations in full, arrangements x 5 decisive certificates, subject encodings x 8 decisive '
         'configurations); for every second cell the '
         'auth_settings are written to a server configuration file and read back by the real KmipServerConfig.  Every cell is run; a case is '
@@ -274,7 +275,9 @@ def run(ctx):
             upto2 = [p for p in configs if len(p[1]) <= 2]
             three = [p for p in configs if len(p[1]) > 2]
             key_c = [c for c in base_c if c[0] in ('absent', '0cn-client', '1cn-client', '1cn-absent', '1cn-both', '2cn-client')]
-            cells = (list(itertools.product(base_c + lay_c, (True, False), upto2)) + list(itertools.product(key_c, (True, False), three)))
+            lay_p = [p for p in upto2 if not p[0].startswith('two:')]
+            cells = (list(itertools.product(base_c, (True, False), upto2)) + list(itertools.product(lay_c, (True, False), lay_p))
+                     + list(itertools.product(key_c, (True, False), three)))
         for (clabel, cert), tls, (plabel, plugins) in cells:
             label = '%s|tls=%s|%s' % (clabel, tls, plabel)
             s = stream if n % 7 else destroy + garbage + get          # now and then a destructive first request
